@@ -124,10 +124,13 @@ def apply_local(text, replaces, where):
     the anchor is lost (exit 2)."""
     fired = {}
     for rx, rep in replaces:
+        want = None
+        if isinstance(rx, tuple):
+            rx, want = rx
         nl_before = text.count('\n')
         text2, n = re.subn(rx, rep, text, flags=re.S)
-        if n == 0:
-            raise ExtractError('lost anchor: replace /%s/ in %s' % (rx, where))
+        if n == 0 or (want is not None and n != want):
+            raise ExtractError('lost anchor: replace /%s/ in %s%s' % (rx, where, '' if want is None else ' fired %d times, expected %d' % (n, want)))
         if text2.count('\n') != nl_before:
             # re-balance: only allowed to lose newlines; pad at the end of the
             # replaced region is not known here, so require explicit \n in rep
